@@ -152,6 +152,7 @@ pub fn make_case(class: u64, idx: u64, seed: u64) -> Case {
     match class {
         0 => {
             let np = r.range(1, 20) as usize;
+            let mut last_rect: Option<Rect> = None;
             for pi in 0..np {
                 let mut budget: usize = if r.chance(1, 4) { 120 } else { 32000 };
                 let long = budget > 120 || r.chance(1, 2);
@@ -169,7 +170,14 @@ pub fn make_case(class: u64, idx: u64, seed: u64) -> Case {
                                 break;
                             }
                             let maxd = (budget - 34).min(if r.chance(1, 8) { 32000 } else { 300 });
-                            let rc = rect(&mut r, maxd, (pi as u32) << 16 | (ui as u32) << 8 | ri as u32);
+                            // servers do repeat themselves: now and then the very same rectangle again (same position, size,
+                            // flags and bytes), back to back within an update, across updates or across PDUs
+                            let repeat = last_rect.as_ref().filter(|l| l.data.len() + 34 <= budget).cloned();
+                            let rc = match repeat {
+                                Some(l) if r.chance(1, 6) => l,
+                                _ => rect(&mut r, maxd, (pi as u32) << 16 | (ui as u32) << 8 | ri as u32),
+                            };
+                            last_rect = Some(rc.clone());
                             budget -= rc.data.len() + 30;
                             rects.push(rc);
                         }
